@@ -1,8 +1,11 @@
 (* C12 — scanners and iterators are isolated from each other and from their past (partial:
-   in the functional model iterators share nothing by construction; what Rust adds — one clone
-   of the ScannerImpl per find_iter, an Arc-shared immutable predicate, no aliasing of &mut —
-   is guaranteed by the type system and validated by the correspondence, not proved here). *)
-From Scnr Require Import Base Automaton FindFrom FindFromProofs Iter IterRun IterProofs HistoryProofs.
+   in the functional model iterators share nothing by construction. The state that outlives a
+   call inside one iterator — the scratch vectors — is modelled explicitly and proved irrelevant;
+   that an iterator owns all its state (one clone of the ScannerImpl per find_iter, an Arc-shared
+   immutable predicate) is read off the source on every run (C12_source_premises) and validated
+   by the correspondence; that Rust's `&mut` excludes aliasing is the type system's guarantee,
+   not proved here). *)
+From Scnr Require Import Base Automaton FindFrom FindFromProofs Iter IterRun IterProofs HistoryProofs Scratch Gen.IsolationFacts.
 
 (* the outputs seen on iterator i in any interleaving of operations on any number of iterators
    are those of i's own operations run alone *)
@@ -12,12 +15,38 @@ Theorem C12_isolation :
 Proof. exact world_isolation. Qed.
 Print Assumptions C12_isolation.
 
-(* find_from's result does not depend on anything but the automaton and the haystack: it is a
-   function (the Rust scratch vectors current_states/next_states are cleared at entry) *)
-Theorem C12_find_is_function :
-  forall tbl M s1 s2, s1 = s2 -> find_mode tbl M s1 = find_mode tbl M s2.
-Proof. intros; subst; reflexivity. Qed.
-Print Assumptions C12_find_is_function.
+(* THE SCRATCH VECTORS. find_from with current_states / next_states explicit (Scratch.v, the
+   statements of the Rust body in their order): whatever an earlier call, an earlier input or an
+   earlier iterator left in them, the result is the function FindFrom.find_from of the automaton
+   and the haystack; so is every result of any sequence of calls on one automaton. *)
+Theorem C12_scratch_irrelevant :
+  forall tbl A la (sc:scratch) s, fst (find_from_st tbl A la true sc s) = find_from tbl A la s.
+Proof. exact find_from_st_result. Qed.
+Print Assumptions C12_scratch_irrelevant.
+
+Theorem C12_calls_independent :
+  forall tbl A la hs sc, calls tbl A la sc hs = map (find_from tbl A la) hs.
+Proof. exact calls_independent. Qed.
+Print Assumptions C12_calls_independent.
+
+(* ... and the statement is about the clearing at entry: without it, it is false *)
+Theorem C12_without_clearing_refuted :
+  fst (find_from_st ex_sc_tbl ex_sc_A no_la false ([2], []) [98%N]) = Ok (Some (1%N, 1))
+  /\ fst (find_from_st ex_sc_tbl ex_sc_A no_la false ([], []) [98%N]) = Ok None
+  /\ fst (find_from_st ex_sc_tbl ex_sc_A no_la true ([2], []) [98%N]) = Ok None.
+Proof. exact without_clearing_refuted. Qed.
+Print Assumptions C12_without_clearing_refuted.
+
+(* SOURCE PREMISES, regenerated from /repo/scnr/src on every run (lib/c12_facts.py ->
+   Gen/IsolationFacts.v): the state an iterator's results depend on is exactly the state of the
+   model (fields of Scanner, ScannerImpl, CompiledScannerMode, CompiledDfa, CompiledLookahead,
+   FindMatchesImpl; no interior mutability; the only shared parts are the immutable class registry
+   and predicate), find_iter hands a CLONE of the ScannerImpl to the iterator, the iterator's
+   constructor resets the mode, find_from clears its scratch vectors at entry and ends every round
+   with clear + swap. *)
+Theorem C12_source_premises : isolation_facts = true.
+Proof. exact isolation_facts_ok. Qed.
+Print Assumptions C12_source_premises.
 
 (* a fresh iterator does not depend on the mode set on the Scanner or on earlier inputs *)
 Theorem C12_fresh_iterator :
